@@ -327,28 +327,28 @@ type exch struct {
 	Scope         string
 	Audience      []string
 	Resource      []string
-	GrantNil      bool // the storage grants no scope for this request
-	Multi         bool // a step of a multi-issuer history (multi.go)
-	NoDefault     bool // the storage sets no default requested type: with the parameter absent the issued type is the provider's choice
+	GrantNil      bool     // the storage grants no scope for this request
+	Multi         bool     // a step of a multi-issuer history (multi.go)
+	NoDefault     bool     // the storage sets no default requested type: with the parameter absent the issued type is the provider's choice
 	Fault         *faultAt // the storage call of this request that fails (storvar.go); nil = none
 }
 
 type stepLog struct {
-	Step     string     `json:"step"`
-	Router   string     `json:"router"`
+	Step   string `json:"step"`
+	Router string `json:"router"`
 	// multi-issuer worlds: where the request was sent and which issuer that request stands for
-	Host      string `json:"request_host,omitempty"`
-	Forwarded string `json:"forwarded_header,omitempty"`
-	Issuer    string `json:"request_issuer,omitempty"`
-	Tokens    string `json:"tokens,omitempty"`
-	Auth     string     `json:"client_auth"`
-	Form     url.Values `json:"form"`
-	Policy   string     `json:"storage_policy"`
-	Fault    string     `json:"storage_fault,omitempty"`
-	Status   int        `json:"status"`
-	Body     string     `json:"body"`
-	Verdict  string     `json:"verdict"`
-	Expected any        `json:"expected,omitempty"`
+	Host      string     `json:"request_host,omitempty"`
+	Forwarded string     `json:"forwarded_header,omitempty"`
+	Issuer    string     `json:"request_issuer,omitempty"`
+	Tokens    string     `json:"tokens,omitempty"`
+	Auth      string     `json:"client_auth"`
+	Form      url.Values `json:"form"`
+	Policy    string     `json:"storage_policy"`
+	Fault     string     `json:"storage_fault,omitempty"`
+	Status    int        `json:"status"`
+	Body      string     `json:"body"`
+	Verdict   string     `json:"verdict"`
+	Expected  any        `json:"expected,omitempty"`
 }
 
 func (e *exch) form() url.Values {
@@ -1300,8 +1300,8 @@ func main() {
 
 	matrixCases := run.N(matrixSize, 18*matrixSize)
 	n := run.N(matrixSize+4320, 18*matrixSize+36120) // 3 600 / 75 000 cases, each on both routers
-	nMulti := mtScriptedCount() + run.N(240, 6000) // multi-issuer histories (multi.go), each on both routers
-	nStor := storCount(run.N(96, 2400))            // storage variants: no-default-type and fault sweeps (storvar.go), each on both routers
+	nMulti := mtScriptedCount() + run.N(240, 6000)   // multi-issuer histories (multi.go), each on both routers
+	nStor := storCount(run.N(96, 2400))              // storage variants: no-default-type and fault sweeps (storvar.go), each on both routers
 	run.Extra("cases", map[string]int{"scripted_scenarios": len(scenarios), "matrix": matrixCases, "near_valid": n - matrixCases, "routers": 2,
 		"multi_issuer_scripted": mtScriptedCount(), "multi_issuer_generated": nMulti - mtScriptedCount(),
 		"storage_variants_scripted": len(storScripts), "storage_variants_generated": nStor - len(storScripts)})
